@@ -113,8 +113,14 @@ inductive COut where
   | raise
   /-- returns a `cstate` whose `pickle.dumps` raises (before `LAST_STATE` is assigned) -/
   | statePickleFail
-  /-- returns `units` that cannot be pickled: `worker_proc.worker` answers status 2 -/
+  /-- returns `units` that cannot be pickled: `worker_proc.worker` answers status 2
+      (also: any reply the server cannot read or does not wait for — `pickle.loads(data)`
+      fails in `BaseWorker.call`, the call is cancelled in flight) -/
   | resultUnpicklable
+  /-- the compiler is never reached, nor is `__sync__`: `worker_proc.worker` cannot
+      unpickle the request (e.g. a compile argument) or `get_handler` fails; it answers
+      status 1 with that ordinary exception -/
+  | requestUnreadable
 deriving DecidableEq, Repr
 
 /-- One `AbstractPool.compile(dbname, user_schema_pickle, global_schema_pickle,
@@ -241,12 +247,12 @@ def withAck (b : Side) (db : Nat) (p : Parts) : Option Side :=
 /-- `worker._last_pickled_state = None` -/
 def Side.forget (b : Side) : Side := { b with last := none }
 
-/-- `AbstractPool.compile` on worker `r.w`, with `BaseWorker.call`'s status
+/-- `AbstractPool.compile` on worker `r.w` when the worker can read the request, with `BaseWorker.call`'s status
     handling: the callback runs on status 0 and on status 1 with an exception
     that is not `FailedStateSync`; never on status 2.  The worker assigns
     `LAST_STATE` after `pickle.dumps(cstate)` succeeded; the pool forgets
     `_last_pickled_state` whenever `worker.call` raises. -/
-def stepCompile (env : Env) (st : State) (r : CReq) : State × CObs :=
+def stepCompileRun (env : Env) (st : State) (r : CReq) : State × CObs :=
   let ws := st r.w
   let p := preargs ws.bel r
   let cb := !p.isEmpty
@@ -259,7 +265,7 @@ def stepCompile (env : Env) (st : State) (r : CReq) : State × CObs :=
     let aLast : Option Tok := match r.out with
       | .ok | .resultUnpicklable => some r.ns
       | .okNoState => none
-      | .raise | .statePickleFail => a'.last
+      | .raise | .statePickleFail | .requestUnreadable => a'.last
     let a'' := { a' with last := aLast }
     match r.out with
     | .resultUnpicklable =>
@@ -273,6 +279,22 @@ def stepCompile (env : Env) (st : State) (r : CReq) : State × CObs :=
         | .okNoState => (upd st r.w ⟨{ b' with last := none }, a''⟩, ⟨p, cb, .ok, some used⟩)
         | .raise => (upd st r.w ⟨b'.forget, a''⟩, ⟨p, cb, .compErr, some used⟩)
         | _ => (upd st r.w ⟨b'.forget, a''⟩, ⟨p, cb, .statePickleErr, some used⟩)
+
+/-- The request never reaches `__sync__`: `worker_proc.worker` cannot unpickle it (or
+    `get_handler` fails) and answers status 1 with that ordinary exception.
+    `BaseWorker.call` sees "status 1, not a `FailedStateSync`" and runs the acknowledgement
+    callback: the server records a sync that never happened. -/
+def stepCompileLost (st : State) (r : CReq) : State × CObs :=
+  let ws := st r.w
+  let p := preargs ws.bel r
+  let cb := !p.isEmpty
+  match withAck ws.bel r.db p with
+  | none => (upd st r.w ⟨ws.bel.forget, ws.act⟩, ⟨p, cb, .cbAssert, none⟩)
+  | some b' => (upd st r.w ⟨b'.forget, ws.act⟩, ⟨p, cb, .unpickleErr, none⟩)
+
+/-- `AbstractPool.compile` on worker `r.w` -/
+def stepCompile (env : Env) (st : State) (r : CReq) : State × CObs :=
+  if r.out = .requestUnreadable then stepCompileLost st r else stepCompileRun env st r
 
 /-! ### compile_in_tx -/
 
